@@ -12,6 +12,8 @@ pub struct Fired {
     pub short: u64,
     pub interrupted: u64,
     pub hard: u64,
+    /// premature end of file delivered by a reader (truncation, not an error)
+    pub eof: u64,
     pub calls: u64,
 }
 
@@ -53,10 +55,11 @@ impl Read for FaultyReader<'_> {
         }
         if let Some(h) = self.plan.hard_at {
             if self.pos as u64 >= h {
-                self.fired.hard += 1;
                 return if self.plan.hard_kind == 2 {
+                    self.fired.eof += 1;
                     Ok(0)
                 } else {
+                    self.fired.hard += 1;
                     Err(hard_error(self.plan.hard_kind))
                 };
             }
